@@ -3,7 +3,7 @@ from core import Ob, Wrapper
 import grid as G
 
 ASSUMPTIONS = ['floating scalar division (both reps) and double scalar multiplication are decided as STRUCTURAL obligations (one application of the raw operator to the stored value and the scalar; the operator is uninterpreted on both sides, because two symbolic IEEE dividers / 53-bit multipliers are equated by no installed back end); the integer versions, float scalar multiplication, + and - are compared with the concrete operator bit for bit',
-               'sizeof/alignof/trivially-copyable/standard-layout and result TYPES are compile-time facts, not decided by a contract',
+               'sizeof/alignof/trivially-copyable/standard-layout, default construction and result TYPES are compile-time facts: no contract expresses them; they are checked by supporting static probes (C13.static.*), reported separately and not counted as proved',
                'sub-int reps: operator% and unary +/- are rejected by clang (narrowing in `return {...}`) and accepted by g++; those instances are lowered with -Wno-c++11-narrowing',
                '"raw operator" means the C++ built-in operator on the promoted operands, followed by the conversion to the result rep the library performs; '
                'the contract requires the raw expression to be defined (no signed overflow, no division by zero) and then demands the same value and no UB:* in the closure']
@@ -218,4 +218,35 @@ def obligations(tier, seed):
         obs.append(Ob(id='C13.access.%s' % rep, prop='C13', group=grp, prelude=pre + '\n//--\n#include "au/quantity_point.hh"', wrappers=[win, wdf], inputs=[(ct, 'a')], body=body, fp=True,
                       contract='forall bit patterns (NaN payloads, infinities, signed zeros): unit(x).in(unit) and unit_pt(x).in(unit) return x bit for bit; R{} is +0',
                       functions_under_contract=('au::Quantity::in', 'au::QuantityPoint::in', 'au::QuantityMaker::operator()')))
+    # ---- supporting static facts: layout, triviality, default construction and result TYPES (compile-time clauses of C13; no function contract expresses them)
+    reps_ct = ['int8_t', 'uint8_t', 'int16_t', 'uint16_t', 'int32_t', 'uint32_t', 'int64_t', 'uint64_t', 'float', 'double', 'long double', 'bool', 'char']
+    SH = '#include <type_traits>\n#include "au/au.hh"\n#include "au/units/meters.hh"\n#include "au/units/celsius.hh"\nusing namespace au;\n#define VF_STATIC_FACT(c) static_assert(c, "VF_STATIC_FACT")\n'
+    for fam, tmpl in (('quantity', 'Quantity<Meters, %s>'), ('point', 'QuantityPoint<Celsius, %s>')):
+        L = []
+        for r in reps_ct:
+            T = tmpl % r
+            L += ['VF_STATIC_FACT((sizeof(%s) == sizeof(%s) && alignof(%s) == alignof(%s)));' % (T, r, T, r),
+                  'VF_STATIC_FACT((std::is_trivially_copyable<%s>::value && std::is_trivially_destructible<%s>::value && std::is_standard_layout<%s>::value));' % (T, T, T),
+                  'VF_STATIC_FACT((std::is_trivially_copy_constructible<%s>::value && std::is_trivially_copy_assignable<%s>::value));' % (T, T)]
+            if r not in ('bool',):
+                L.append('constexpr %s vf_d_%s_%s{}; VF_STATIC_FACT((vf_d_%s_%s.in(%s{}) == static_cast<%s>(0)));' % (T, fam, r.replace(' ', '_'), fam, r.replace(' ', '_'), 'Meters' if fam == 'quantity' else 'Celsius', r))
+        obs.append(Ob(id='C13.static.layout.%s' % fam, prop='C13', group='C13.static', prelude='', wrappers=[], inputs=[], kind='S', body=SH + '\n'.join(L) + '\nint main() {}\n',
+                      contract='static facts: for %d reps, %s has exactly the rep\'s size and alignment, is trivially copyable / destructible / standard-layout, and a value-initialised object holds R{}' % (len(reps_ct), tmpl % 'R'),
+                      functions_under_contract=('au::Quantity / au::QuantityPoint (layout, compile-time)',)))
+    L = []
+    for r in ['int8_t', 'uint8_t', 'int16_t', 'uint16_t', 'int32_t', 'uint32_t', 'int64_t', 'uint64_t', 'float', 'double']:
+        Q = 'Quantity<Meters, %s>' % r
+        L += ['VF_STATIC_FACT((std::is_same<decltype(%s{} + %s{}), Quantity<Meters, decltype(%s{} + %s{})>>::value));' % (Q, Q, r, r),
+              'VF_STATIC_FACT((std::is_same<decltype(%s{} - %s{}), Quantity<Meters, decltype(%s{} - %s{})>>::value));' % (Q, Q, r, r),
+              'VF_STATIC_FACT((std::is_same<decltype(%s{} * %s{}), Quantity<Meters, decltype(%s{} * %s{})>>::value));' % (Q, r, r, r),
+              'VF_STATIC_FACT((std::is_same<decltype(%s{} * %s{}), Quantity<Meters, decltype(%s{} * %s{})>>::value));' % (r, Q, r, r),
+              'VF_STATIC_FACT((std::is_same<decltype(%s{} / %s{1}), Quantity<Meters, decltype(%s{} / %s{1})>>::value));' % (Q, r, r, r),
+              'VF_STATIC_FACT((std::is_same<decltype(%s{} == %s{}), bool>::value && std::is_same<decltype(%s{} < %s{}), bool>::value));' % (Q, Q, Q, Q),
+              'VF_STATIC_FACT((std::is_same<decltype(-%s{}), %s>::value && std::is_same<decltype(+%s{}), %s>::value));' % (Q, Q, Q, Q)]
+        P = 'QuantityPoint<Celsius, %s>' % r
+        L += ['VF_STATIC_FACT((std::is_same<decltype(%s{} - %s{}), Quantity<Celsius, %s>>::value));' % (P, P, r),
+              'VF_STATIC_FACT((std::is_same<decltype(%s{} + Quantity<Celsius, %s>{}), QuantityPoint<Celsius, decltype(%s{} + %s{})>>::value || std::is_same<decltype(%s{} + Quantity<Celsius, %s>{}), %s>::value));' % (P, r, r, r, P, r, P)]
+    obs.append(Ob(id='C13.static.result-types', prop='C13', group='C13.static', prelude='', wrappers=[], inputs=[], kind='S', body=SH + '\n'.join(L) + '\nint main() {}\n',
+                  contract='static facts: for 10 reps, same-unit + - and scalar * / have the rep the raw operator produces (decltype(R{} op R{})), comparisons are bool, unary +/- keep the type, point - point is Quantity<U,R>',
+                  functions_under_contract=('au::Quantity operators (result types, compile-time)',)))
     return obs
